@@ -164,7 +164,7 @@ class FortranRegularExpressions:
     # Object regex patterns
     CLASS_VAR: Pattern = compile(r"(TYPE|CLASS)[ ]*\(", I)
     DEF_KIND: Pattern = compile(r"(\w*)[ ]*\((?:KIND|LEN)?[ =]*(\w*)", I)
-    OBJBREAK: Pattern = compile(r"[\/\-(.,+*<>=: ]", I)
+    OBJBREAK: Pattern = compile(r"[\/\-(.,+*<>=:; ]", I)
 
 
 # TODO: use this in the main code
